@@ -38,6 +38,37 @@ func runC11(c *Ctx) {
 	// "adopts ... nothing" while the set is being deleted: the uncached recheck runs once per sync, and what it found is what
 	// every adoption attempt of that sync is told -- not only the first (the shape rule of C10.3, as a clause of this property)
 	c.refusedAdoptionEndsTheSync(sy)
+	// a revision gets this set's owner reference only on the path that has looked at the set uncached first: the patching
+	// helper is called from the control's AdoptOrphanRevisions and from nowhere else
+	{
+		nSite := 0
+		var onlyFromAdoption func(f *types.Func, depth int) (bool, string)
+		onlyFromAdoption = func(f *types.Func, depth int) (bool, string) {
+			if strings.HasSuffix(f.Name(), "AdoptOrphanRevisions") {
+				return true, ""
+			}
+			callers := c.G.Callers(f)
+			if len(callers) == 0 || depth > 2 {
+				return false, f.Name()
+			}
+			for _, cf := range callers {
+				if g, who := onlyFromAdoption(cf, depth+1); !g {
+					return false, who
+				}
+			}
+			return true, ""
+		}
+		for _, s := range c.G.Sites {
+			if s.Resource != "controllerrevisions" || s.Verb != "Patch" || s.Fn.Pkg() == nil || s.Fn.Pkg().Path() != load.CtrlPkg {
+				continue
+			}
+			nSite++
+			good, who := onlyFromAdoption(s.Fn, 0)
+			c.Check(good, "C11.1-revision-adoption-only-behind-the-recheck", "ControllerRevisions.Patch in "+s.Fn.Name(), s.Call.Pos(), "reached only through the control's AdoptOrphanRevisions, which adoptOrphanRevisions calls after the uncached look at the set",
+				"the owner-reference patch of a ControllerRevision is also reached through "+who+", a path that has not looked at the set uncached: a set that is being deleted takes ownership of a revision")
+		}
+		c.Floor("C11.1-revision-adoption-sites", nSite, 1)
+	}
 	c.withOnly(map[string]string{"C10.3-CanAdopt-shape": "C11.1-recheck-result-is-kept-for-every-attempt"}, nil, "C11.1-recheck-shape", 1, c.freshConfirmation)
 	fn, an := c.Analysis(sy)
 	info := sy.Pkg.TypesInfo
